@@ -308,6 +308,11 @@ fn preprocess_text_hangul(_: &hb_ot_shape_plan_t, face: &hb_font_t, buffer: &mut
                     && (tindex == 0 || face.has_glyph(decomposed[2]))
                 {
                     let mut s_len = if tindex != 0 { 3 } else { 2 };
+                    if has_glyph && tindex == 0 && !is_combining_t(buffer.cur(1).glyph_id) {
+                        // LV is decomposed only because a non-combining T follows (the
+                        // combining case was marked above): mark unsafe between LV and T.
+                        buffer.unsafe_to_break(Some(buffer.idx), Some(buffer.idx + 2));
+                    }
                     buffer.replace_glyphs(1, s_len, &decomposed);
 
                     // If we decomposed an LV because of a non-combining T following,
